@@ -668,6 +668,8 @@ pub(crate) fn solve_expression(
                             if count >= c {
                                 return SolverResult::True;
                             }
+                            // NOTE: Present but short of the threshold is false, not missing
+                            res = SolverResult::False;
                         }
                         SolverResult::False => res = SolverResult::False,
                         SolverResult::Missing => {}
